@@ -24,6 +24,7 @@ ASSUMPTIONS = [
     'every such draw is explored',
     'the per-cluster callback is built from _spikes_per_cluster exactly as save_spikes_subset_waveforms does',
     'ceil(n / k) on exact rationals equals the float result (|n| < 2^26)',
+    'forms added after seeding rounds: two calls with different chunk flags on one selector; subset arrays that list an id twice',
 ]
 STUBS = ['np.random.choice (arbitrary distinct subset, arbitrary order)']
 OUTSIDE = ['more spikes / grid bounds than the bound']
